@@ -11,3 +11,4 @@ pub mod types;
 pub mod plan;
 pub mod faults;
 pub mod seeds;
+pub mod trap;
